@@ -408,7 +408,9 @@ func orchestrate() int {
 	}
 
 	if replay == nil {
-		writeEvidence(out, d, tier, seed, wall, &total, partSums, len(fresh), len(knownHit))
+		if prop != "SELF" { // the self-test of the machinery is not a property: no evidence file
+			writeEvidence(out, d, tier, seed, wall, &total, partSums, len(fresh), len(knownHit))
+		}
 	}
 	fmt.Printf("%s %s: evaluations=%d programs=%d states=%d transitions=%d outcomes=%d exhaustive=%v violations=%d known=%d wall=%.1fs\n",
 		prop, tier, total.Evaluations, total.Programs, total.States, total.Transitions, len(total.Outcomes), total.Exhaustive, len(fresh), len(knownHit), wall)
